@@ -26,7 +26,7 @@
    goes out before its insert is refused); known finding, reproduced on the real mint by the c01-sched stream.
 *)
 From Coq Require Import ZArith List Bool.
-From Verif Require Import Model Sem InvDb InvSwap InvMint InvMelt Corollaries Queries Footprint HRel Global GlobalQuote GlobalValue GlobalErr GlobalQuery GlobalMelt GlobalKeys Cuts CutOrder Conc Races GlobalBalance.
+From Verif Require Import Model Sem InvDb InvSwap InvMint InvMelt Corollaries Queries Footprint HRel Global GlobalQuote GlobalValue GlobalErr GlobalQuery GlobalMelt GlobalKeys Cuts CutOrder Conc Races GlobalBalance GlobalLedger Reconf GlobalPoll Trace Admin AdminProofs CutValue CutMint CutFrames ConcValue CutHistory CutBalance.
 Import ListNotations.
 Open Scope Z_scope.
 
@@ -90,6 +90,35 @@ Theorem C01_concurrent_at_most_once : forall (cfg : config) (w : world) (ops : l
        nth_error rs j = Some rj -> success_of oi ri = true -> success_of oj rj = true -> False.
 Proof. exact @concurrent_at_most_once. Qed.
 Print Assumptions C01_concurrent_at_most_once.
+
+Theorem C01_concurrent_swaps_never_inflate : forall (cfg : config) (w : world) (ops : list op) (sched : list nat),
+       Forall calm ops ->
+       let w0 := reset_calls w in
+       let ts := map (op_prog cfg (w_mem w0) (w_active w0)) ops in
+       (forall k : nat,
+        vS (fst (interleave (firstn k sched) ts w0)) - vR (fst (interleave (firstn k sched) ts w0)) <= vS w - vR w) /\
+       vS (fst (run_concurrent cfg w ops sched)) - vR (fst (run_concurrent cfg w ops sched)) <= vS w - vR w.
+Proof. exact @concurrent_swaps_never_inflate. Qed.
+Print Assumptions C01_concurrent_swaps_never_inflate.
+
+Theorem C01_concurrent_swaps_keep_good : forall (cfg : config) (w : world) (ops : list op) (sched : list nat),
+       Forall swapish ops -> Good w -> Good (fst (run_concurrent cfg w ops sched)).
+Proof. exact @concurrent_swaps_keep_good. Qed.
+Print Assumptions C01_concurrent_swaps_keep_good.
+
+Theorem C01_concurrent_swaps_example : let cfg := {| c_max_mint := 0; c_max_melt := 0; c_max_balance := 0; c_mpp := false; c_feepct := 1 |} in
+       let w0 := hrun cfg world0 cv_prefix in
+       Forall calm cv_ops /\
+       (let
+        '(w, rs) := run_concurrent cfg w0 cv_ops cv_sched in
+         (vS w0, vR w0) = (64, 0) /\
+         (vS w, vR w) = (128, 64) /\
+         length (filter (fun r : opres => match r with
+                                          | RSigs _ => true
+                                          | _ => false
+                                          end) rs) = 1%nat).
+Proof. exact @concurrent_swaps_example. Qed.
+Print Assumptions C01_concurrent_swaps_example.
 
 Theorem C01_locked_or_spent_refused : forall (cfg : config) (h : list op) (ins : list proof) (outs : list bmsg) (sg : bool),
        let w := reach cfg h in
